@@ -142,6 +142,15 @@ def random_spec(r):
     if kind == "gabor" and nf == 1 and r.random() < 0.5:
         scale = dict(name="linear", low_hz=0.0, slope_hz=1.0)
     spec = dict(kind=kind, rate=rate, low_hz=lo, high_hz=hi, num_filts=nf)
+    if kind in ("tri", "fbank") and r.random() < 0.2:
+        # outermost vertices placed exactly on bins of some width W (and of its multiples)
+        W = r.choice([24, 40, 88, 100, 250, 360])
+        ka = r.randrange(0, W // 8)
+        kb = r.randrange(W // 4, W // 2)
+        spec["low_hz"], spec["high_hz"] = max(ka * rate / W, spec["low_hz"] if kind != "fbank" and sname == "octave" else 0.0), kb * rate / W
+        if spec["high_hz"] > spec["low_hz"]:
+            spec["widths"] = [W, 2 * W, 5 * W]
+            spec["filts"] = [nf - 1, 0]
     if kind == "fbank":
         spec["analytic"] = r.random() < 0.5
     else:
@@ -174,6 +183,12 @@ FIXED_SPECS = [
     dict(kind="tri", rate=13101.77, low_hz=300.0, high_hz=6550.885, num_filts=5, scale=dict(name="linear", low_hz=300.0, slope_hz=1.0),
          analytic=False, widths=[6, 12, 18], filts=[4]),
     dict(kind="fbank", rate=13101.77, low_hz=0.0, high_hz=None, num_filts=4, analytic=False, widths=[6, 10]),
+    # the bank's outermost vertices exactly on DFT bins (3000 Hz = bin 33 of 88 at 8 kHz, 64 Hz = bin 2 of 250, ...): the
+    # response there is exactly 0 - a bin frequency computed one ulp off lands outside the triangle
+    dict(kind="fbank", rate=8000, low_hz=64.0, high_hz=3000.0, num_filts=20, analytic=False, widths=[88, 176, 250, 352, 440], filts=[19, 0]),
+    dict(kind="fbank", rate=16000, low_hz=20.0, high_hz=3700.0, num_filts=23, analytic=False, widths=[160, 320, 800, 1600], filts=[22]),
+    dict(kind="fbank", rate=48000, low_hz=60.0, high_hz=3000.0, num_filts=10, analytic=True, widths=[16, 80, 400, 800], filts=[9, 0]),
+    dict(kind="tri", rate=8000, low_hz=64.0, high_hz=3000.0, num_filts=7, scale=dict(name="mel"), analytic=False, widths=[88, 176, 250, 440], filts=[6, 0]),
     # low_hz above the (default) top edge: the documented ValueError (finding F-C06: Fbank used to accept it)
     dict(kind="fbank", rate=500, low_hz=300.0, high_hz=None, num_filts=3, analytic=False),
     dict(kind="fbank", rate=500, low_hz=300.0, high_hz=None, num_filts=10, analytic=True),
